@@ -146,7 +146,7 @@ func checkC11(c *Ctx) {
 	c.rule("TABLE-balance", "rebalancing decision over balance factor × child balance factor", 15)
 	checkBalanceTable(c, l, "TABLE-balance", "v1", l.Func("", "*MutableTree.balance"))
 
-	checkTreeRules(c, l, map[string]bool{"lookup": true, "rotate": true})
+	checkTreeRules(c, l, map[string]bool{"lookup": true, "rotate": true, "insert": true, "remove": true})
 
 	// PASS rebalance
 	calc := l.Func("", "*Node.calcHeightAndSize")
